@@ -961,4 +961,20 @@ def inlineReplayTokens (s : ServeFacts) : Nat :=
 /-- Tokens the same question costs on the decoded ingress (`handleCacheHit`). -/
 def decodedIngressTokens (s : ServeFacts) : Nat := if s.limited && s.limiterAllows then 1 else 0
 
+/-! ### ancestor walks of the cut / failure / witness lookups -/
+
+/-- `walkWireSuffixes`: every suffix of the uncompressed wire name handed to the visitor,
+from the full name down to the root octet; a malformed length octet ends the walk. -/
+def walkWireSuffixes : Nat → Bytes → List Bytes
+  | 0, _ => []
+  | _ + 1, [] => []
+  | fuel + 1, c :: t =>
+    (c :: t) :: (if c = 0 ∨ c > 63 ∨ t.length < c then [] else walkWireSuffixes fuel (t.drop c))
+
+/-- `walkFailureZones` / `denialProofAncestors` on the decoded side: the name, each
+parent, the root last. -/
+def decodedAncestors : List Bytes → List (List Bytes)
+  | [] => [[]]
+  | l :: t => (l :: t) :: decodedAncestors t
+
 end SdnsVerif.Model.WirePath
